@@ -25,7 +25,8 @@ Definition is_comment t := ncomment (info t).
 Definition tstart t := ns (info t).
 Definition tend t := ne (info t).
 Definition is_leaf t := match children t with [] => true | _ => false end.
-Definition is_named_leaf t := is_leaf t && named t.
+(* Node::is_named_leaf: "has no named children" (named_child_count() == 0) — NOT is_named && is_leaf *)
+Definition is_named_leaf t := forallb (fun c => negb (named c)) (children t).
 Definition ERROR_KIND : N := 65535.
 Definition is_error_kind (k : N) : bool := N.eqb k ERROR_KIND.
 
